@@ -1097,17 +1097,29 @@ func capRun(e *Env) {
 		}
 	}
 	var wanted, advertised []string
-	for _, cp := range universe {
-		if g.Pct(50) {
-			wanted = append(wanted, cp)
-		}
+	// the application keeps its capability names in one table and configures a
+	// prefix of it (a slice with spare capacity: the rest of the table lies right
+	// behind it in memory); between sessions it may configure another prefix
+	tbl := append([]string{}, universe...)
+	for i := len(tbl) - 1; i > 0; i-- {
+		j := g.Intn(i + 1)
+		tbl[i], tbl[j] = tbl[j], tbl[i]
 	}
 	saslKind := g.W(4, 3, 2, 1) // none, PLAIN, EXTERNAL, a mechanism whose Start fails
 	if saslKind == 0 && g.Pct(25) {
 		// sasl listed as an ordinary wanted capability, no SASL client configured:
 		// an ACK containing it starts nothing
-		wanted = append(wanted, "sasl")
+		at := g.Intn(len(tbl) + 1)
+		tbl = append(tbl[:at], append([]string{"sasl"}, tbl[at:]...)...)
 	}
+	nWanted := 0
+	for range tbl {
+		if g.Pct(50) {
+			nWanted++
+		}
+	}
+	orig := append([]string{}, tbl...) // the harness's own copy of the names
+	wanted = orig[:nWanted]
 	var saslAdvertised, laterDisable bool
 	var outcome string
 	var reply int
@@ -1132,7 +1144,7 @@ func capRun(e *Env) {
 	nSessions := 1 + g.W(6, 3, 1)
 	cfg := client.NewConfig("me")
 	cfg.EnableCapabilityNegotiation = true
-	cfg.Capabilites = append([]string{}, wanted...)
+	cfg.Capabilites = tbl[:nWanted]
 	cfg.Flood = true
 	cfg.PingFreq = 0
 	cfg.Server = "irc.sim"
@@ -1160,12 +1172,18 @@ func capRun(e *Env) {
 	}
 	saslStarts := saslKind == 1 || saslKind == 2
 	wantSet := map[string]bool{}
-	for _, w := range wanted {
-		wantSet[w] = true
+	setWanted := func() {
+		for k := range wantSet {
+			delete(wantSet, k)
+		}
+		for _, w := range wanted {
+			wantSet[w] = true
+		}
+		if saslKind != 0 {
+			wantSet["sasl"] = true
+		}
 	}
-	if saslKind != 0 {
-		wantSet["sasl"] = true
-	}
+	setWanted()
 	var inter []string
 	intersect := func() {
 		inter = nil
@@ -1495,6 +1513,14 @@ func capRun(e *Env) {
 			// the same client connects again; this server has its own offer
 			e.S.Count("fault.reconnect-to-another-offer")
 			drawServer()
+			if g.Pct(40) {
+				// the application wants more, or less, on the next connection
+				nWanted = g.Intn(len(tbl) + 1)
+				c.Config().Capabilites = tbl[:nWanted]
+				wanted = orig[:nWanted]
+				setWanted()
+				e.S.Count("probe.wanted-capabilities-changed-between-sessions")
+			}
 			intersect()
 			got, done, enabled = nil, false, map[string]bool{}
 			saslStarted, saslAsked, saslEnded = false, false, false
